@@ -6,6 +6,12 @@ use std::time::Duration;
 use vstd::sim::{self, Reason, Wake};
 
 static POLLERS: StdMutex<Vec<(usize, RawFd)>> = StdMutex::new(Vec::new());
+static POLL_THREADS: StdMutex<Vec<(usize, String)>> = StdMutex::new(Vec::new());
+
+/// Name of the thread that last waited on poller `id` (the event loop that owns it).
+pub fn vsim_poller_thread(id: usize) -> Option<String> {
+    POLL_THREADS.lock().unwrap_or_else(|e| e.into_inner()).iter().find(|e| e.0 == id).map(|e| e.1.clone())
+}
 
 /// Real epoll instance and registry; only the *waiting* in `poll` is simulated.
 pub struct Poll {
@@ -74,6 +80,19 @@ impl Poll {
 
     pub fn poll(&mut self, events: &mut Events, timeout: Option<Duration>) -> std::io::Result<()> {
         sim::point("mio.poll");
+        {
+            let mut l = POLL_THREADS.lock().unwrap_or_else(|e| e.into_inner());
+            let me = std::thread::current().name().unwrap_or("?").to_string();
+            match l.iter().find(|e| e.0 == self.id) {
+                None => l.push((self.id, me)),
+                Some(e) if e.1 != me => {
+                    // an event loop's poller is being waited on by a thread that is not that loop's:
+                    // a coroutine that belongs to this loop runs on another loop's thread
+                    sim::count("cause.net.poller-used-by-other-thread");
+                }
+                Some(_) => {}
+            }
+        }
         if !sim::is_active() {
             return self.inner.poll(events, Some(Duration::ZERO));
         }
